@@ -22,7 +22,9 @@ FirstBad    == CHOOSE f \in DOMAIN last'.exp : ~Matches(f)
 
 TInit == Init /\ l = 1
 
+Threw == "ret" \in DOMAIN Line.obs /\ Line.obs.ret = "threw"
 Dispatch ==
+  IF Threw THEN "fuse" \in DOMAIN Line.arg /\ Failed(Line.a, Line.arg) ELSE
   \/ Line.a = "PushBack" /\ PushBack(Line.arg.i, Line.arg.x)
   \/ Line.a = "PushBackRv" /\ PushBackRv(Line.arg.i, Line.arg.x)
   \/ Line.a = "PushBackOwn" /\ PushBackOwn(Line.arg.i)
@@ -38,14 +40,18 @@ Dispatch ==
   \/ Line.a = "Swap" /\ Swap
   \/ Line.a = "Clear" /\ Clear(Line.arg.i)
   \/ Line.a = "Insert" /\ Insert(Line.arg.i, Line.arg.pos, Line.arg.x)
-  \/ Line.a = "Allocate" /\ Allocate(Line.arg.rel, Line.arg.d)
+  \/ Line.a = "MoveAssign" /\ MoveAssign(Line.arg.i)
+  \/ Line.a = "SelfAssign" /\ SelfAssign(Line.arg.i)
+  \/ Line.a = "InsertOwn" /\ InsertOwn(Line.arg.i)
+  \/ Line.a = "ResizeValOwn" /\ ResizeValOwn(Line.arg.i, Line.arg.n)
+  \/ Line.a = "Allocate" /\ Allocate(Line.arg.how, Line.arg.rel, Line.arg.d)
 
 TStep  == /\ l <= N /\ Line.a # "Reset"
           /\ Dispatch
           /\ IF ObsMatches THEN TRUE ELSE PrintT(<<"C14-REASON", l, FirstBad, last'.cls>>) /\ FALSE
           /\ l' = l + 1
 TReset == l <= N /\ Line.a = "Reset" /\ v' = <<<<>>, <<>>>>
-          /\ last' = [a |-> "Init", arg |-> <<>>, cls |-> "", exp |-> Proj(<<<<>>, <<>>>>)] /\ l' = l + 1
+          /\ last' = [a |-> "Init", arg |-> <<>>, cls |-> "", byte_ok |-> TRUE, exp |-> Proj(<<<<>>, <<>>>>)] /\ l' = l + 1
 TNext  == TStep \/ TReset
 TSpec  == TInit /\ [][TNext]_tvars
 
